@@ -1037,7 +1037,7 @@ def probe_inner_models(ctx):
     # (2,3,4) and (2,4,3): sizes where another irrep of S_k x SU(dB) has the dimension of the symmetric one (15 = 15, 20 = 20) — the
     # bosonic block of the outer test must still be the symmetric irrep
     cfg = [(2, 2, 1), (2, 2, 2), (2, 2, 3), (2, 3, 2), (3, 3, 2), (2, 3, 4), (2, 4, 3)] if ctx.quick() else \
-        [(2, 2, 1), (2, 2, 2), (2, 2, 3), (2, 3, 1), (2, 3, 2), (2, 3, 3), (3, 3, 1), (3, 3, 2), (2, 4, 2), (2, 2, 4), (2, 3, 4), (2, 4, 3), (3, 3, 4)]
+        [(2, 2, 1), (2, 2, 2), (2, 2, 3), (2, 3, 1), (2, 3, 2), (2, 3, 3), (3, 3, 1), (3, 3, 2), (2, 4, 2), (2, 2, 4), (2, 3, 4), (2, 4, 3)]
     for dA, dB, k in cfg:
         for rep in range(2 if ctx.quick() else 4):
             rho, theta = _pureb_state(dA, dB, k, rng)
@@ -1736,8 +1736,94 @@ def probe_get_boundary_info(ctx):
             ctx.probe_ok(('get-boundary-info', name))
 
 
+def _arrays_of(x):
+    """all numpy arrays (torch tensors as their numpy view) inside a result"""
+    try:
+        import torch
+        if isinstance(x, torch.Tensor):
+            return [x.detach().numpy()]
+    except Exception:
+        pass
+    if isinstance(x, np.ndarray):
+        return [x]
+    if isinstance(x, (list, tuple)):
+        return [a for y in x for a in _arrays_of(y)]
+    if isinstance(x, dict):
+        return [a for y in x.values() for a in _arrays_of(y)]
+    return []
+
+
+def _buffer_reuse(ctx, name, f, A, B, same=None):
+    """hardening class "buffer reuse across calls": r1 = f(A); r2 = f(B) with B != A of the same size; r1 must be unchanged bit for bit, must
+    not share memory with r2, and f(A) again must reproduce it (also after the caller overwrote the earlier results in place)"""
+    import copy
+    key = name + ':result-overwritten-by-next-call'
+    replay = dict(op=name, history=['f(A)', 'f(B)', 'overwrite results', 'f(A)'], A=repr(A)[:400], B=repr(B)[:400])
+    try:
+        r1 = f(A); a1 = _arrays_of(r1); c1 = [a.copy() for a in a1]
+        r2 = f(B); a2 = _arrays_of(r2)
+    except Exception as e:
+        ctx.fail(key, f'{name} raised {type(e).__name__}: {e}', replay); return
+    bad = []
+    if any(not np.array_equal(a, c, equal_nan=True) for a, c in zip(a1, c1)):
+        bad.append('the first result changed when the function was called with a different input of the same size')
+    if any(np.shares_memory(a, b) for a in a1 for b in a2 if a.size and b.size):
+        bad.append('the results of two calls with different inputs share memory')
+    try:
+        for a in a1 + a2:
+            if a.flags.writeable:
+                a[...] = 7
+        a3 = _arrays_of(f(A))
+        ok = len(a3) == len(c1) and all((same or (lambda x, y: x.shape == y.shape and np.array_equal(x, y, equal_nan=True)))(x, y) for x, y in zip(a3, c1))
+        if not ok:
+            bad.append('after the caller overwrote earlier results, f(A) no longer reproduces its first answer')
+    except Exception as e:
+        bad.append(f'repeat call raised {type(e).__name__}: {e}')
+    if bad:
+        ctx.fail(key, f'{name}: ' + '; '.join(bad), replay)
+    else:
+        ctx.probe_ok(('buffer-reuse', name))
+
+
+def probe_buffer_reuse(ctx):
+    """array-returning functions of C06's scope, two different inputs of the same size (deterministic, quick tier)"""
+    import numqi, torch
+    E = numqi.entangle
+    rng = np.random.default_rng(1234)
+    close = lambda x, y: x.shape == y.shape and np.abs(x - y).max(initial=0) <= 1e-6
+    for dA, dB in [(2, 2), (2, 3)]:
+        N = dA * dB
+        A, B = np.stack([rand_dm(rng, N) for _ in range(3)]), np.stack([rand_dm(rng, N) for _ in range(3)])
+        _buffer_reuse(ctx, f'get_density_matrix_boundary[{N}]', lambda x: E.get_density_matrix_boundary(x), A, B)
+        _buffer_reuse(ctx, f'get_ppt_boundary[{dA}x{dB}]', lambda x: E.get_ppt_boundary(x, (dA, dB)), A, B)
+        _buffer_reuse(ctx, f'hf_interpolate_dm[{N}]', lambda x: E.hf_interpolate_dm(x[0], beta=0.1), A, B)
+        _buffer_reuse(ctx, f'dm_to_gellmann_norm[{N}]', lambda x: np.asarray(numqi.gellmann.dm_to_gellmann_norm(x)), A, B)
+        _buffer_reuse(ctx, f'dm_to_gellmann_basis[{N}]', lambda x: numqi.gellmann.dm_to_gellmann_basis(x), A, B)
+        Bij = numqi.dicke.get_partial_trace_ABk_to_AB_index(2, dB)
+        L = numqi.dicke.get_dicke_number(2, dB)
+        P, Q = rng.normal(size=(dA, L)) + 0j, rng.normal(size=(dA, L)) + 0j
+        _buffer_reuse(ctx, f'partial_trace_ABk_to_AB[{dA}x{dB}]', lambda x: numqi.dicke.partial_trace_ABk_to_AB(x, Bij), P, Q)
+        _buffer_reuse(ctx, f'partial_trace_ABk_to_AB[torch,{dA}x{dB}]', lambda x: numqi.dicke.partial_trace_ABk_to_AB(torch.tensor(x), [(torch.tensor(a), torch.tensor(b), torch.tensor(c)) for a, b, c in Bij]), P, Q)
+    A2, B2 = np.stack([rand_dm(rng, 4) for _ in range(2)]), np.stack([rand_dm(rng, 4) for _ in range(2)])
+    with contextlib.redirect_stdout(io.StringIO()):
+        _buffer_reuse(ctx, 'get_ABk_symmetric_extension_boundary[return_info]', lambda x: E.get_ABk_symmetric_extension_boundary(x, (2, 2), 2, return_info=True), A2, B2, same=close)
+        _buffer_reuse(ctx, 'is_ABk_symmetric_ext[return_info]', lambda x: [b for _, b in E.is_ABk_symmetric_ext(np.stack([E.hf_interpolate_dm(y, beta=0.05) for y in x]), (2, 2), 2, return_info=True)], A2, B2, same=close)
+    # stateful objects of the same size, interleaved
+    m1, m2 = E.PureBosonicExt(2, 2, kext=2), E.PureBosonicExt(2, 2, kext=2)
+    th = [rng.normal(size=numqi.optimize.get_model_flat_parameter(m1).shape) for _ in range(2)]
+
+    def fwd(args):
+        m, t = args
+        m.set_dm_target(np.eye(4) / 4); numqi.optimize.set_model_flat_parameter(m, t)
+        with torch.no_grad():
+            m()
+        return m.dm_torch
+    _buffer_reuse(ctx, 'PureBosonicExt.forward[two objects]', fwd, (m1, th[0]), (m2, th[1]))
+    _buffer_reuse(ctx, 'PureBosonicExt.forward[same object]', lambda t: fwd((m1, t)), th[0], th[1])
+
+
 def probe(ctx):
-    for part in (probe_thresholds, probe_batched, probe_ray_invariance, probe_inner_models, probe_histories, probe_hardening, probe_cha_alive, probe_ordering, probe_sdp_shapes, probe_cha_bookkeeping, probe_get_boundary_info):
+    for part in (probe_thresholds, probe_batched, probe_ray_invariance, probe_inner_models, probe_histories, probe_hardening, probe_cha_alive, probe_ordering, probe_sdp_shapes, probe_cha_bookkeeping, probe_get_boundary_info, probe_buffer_reuse):
         _guarded_part(ctx, part, tie=False)
 
 
